@@ -37,8 +37,8 @@ CHECKS = {
    note="Reference points within 1e-7 of a grid point are accepted on either side; what a map change does to pending wake-ups is left to C10.",
    tech="deterministic simulation with fault injection (histories of tempo/beats/meter changes from routines on simulated clocks; law checks + reference model)"),
  'C14': dict(
-   text="Event programs - single events with drawn subsets of pitch/amplitude/duration/server keys (one main pitch key with its own modifiers, scales, db/velocity, dur/stretch/legato, explicit delta/sustain, add action, group, instruments with and without gate) and Pbind/Ppar/Pchain/Pdur/Pdelta compositions over finite value lists with rests - played from a routine by real sc3 in the NRT world (score) and in the simulated RT world against the fake scsynth under seeded scheduling/timing faults, on SystemClock and on a TempoClock of tempo 1. Oracle: independent key-chain model (SuperCollider event documentation) + timeline model -> expected bundles: one /s_new per note event at logical time + latency with instrument, fresh node id in the client range, add action, group and exactly the controls the event defines; one gate-off later by sustain iff the instrument has a gate; nothing for rests; nothing else; key lookups; total duration of the players. Exploration, not proof.",
-   note="The key-chain half is input-style (reach = drawn combinations); a pitch modifier is only generated next to the main key the library associates it with (ctranspose with a degree, modifiers without any pitch key: unspecified); Pmono is not covered.",
+   text="Event programs - single events with drawn subsets of pitch/amplitude/duration/server keys (one main pitch key with its own modifiers, scales, db/velocity, dur/stretch/legato, explicit delta/sustain, add action, group, instruments with and without gate) and Pbind/Pmono/Ppar/Pchain/Pdur/Pdelta compositions over finite value lists with rests - played from a routine by real sc3 in the NRT world (score) and in the simulated RT world against the fake scsynth under seeded scheduling/timing faults, on SystemClock and on a TempoClock of tempo 1. Oracle: independent key-chain model (SuperCollider event documentation) + timeline model -> expected bundles: one /s_new per note event at logical time + latency with instrument, fresh node id in the client range, add action, group and exactly the controls the event defines; one gate-off later by sustain iff the instrument has a gate; nothing for rests; nothing else; key lookups; total duration of the players. Exploration, not proof.",
+   note="The key-chain half is input-style (reach = drawn combinations); a pitch modifier is only generated next to the main key the library associates it with (ctranspose with a degree, modifiers without any pitch key: unspecified); Pmono is covered at top level, in Ppar and after Pdelta (first event not a rest), not its articulate variant.",
    tech="deterministic simulation with fault injection (event programs on simulated clocks vs fake server; timeline + key-chain reference models)"),
  'C16': dict(
    text="Model-based history checking of the real bus/buffer/node-id allocators of a Server configured per case (sizes, reserved offsets, max_logins, client id -> real partition arithmetic) against an interval-set reference: safety (inside partition, no overlap), completeness ('no space' only when no free run exists), misuse tolerance (double free, free(None), unknown address), cross-client disjointness by exhaustion, node-id window/wrap-around; the allocator's random tie-break is a tape draw. Exploration, not proof.",
